@@ -256,6 +256,17 @@ class PipeOps(FullOps):
         return None
 
     def contains(self, container, item, negate, node):
+        # membership of a key in a key collection: the element-wise spelling of an intersection test
+        c = container.payload if isinstance(container, ObjV) and container.payload is not None else container
+        if isinstance(c, DictV):
+            c = self.dict_keys(c)
+        it = tv_of(item)
+        if isinstance(c, (SetV, ListV)) and c.items is None and isinstance(it, TV) and it.note == "key":
+            ca, ia = sorted(self.atoms_of(c)), sorted(it.origin)
+            if ca and ia and not (set(ca) & set(ia)):
+                self.pev("set_op", node, op="In", left=ia, right=ca)
+                inter = f"(&:{'+'.join(ia)}:{'+'.join(ca)})"
+                return TV(kind="pybool", dtype="Bool", note="nonempty?" + inter + ("|neg" if negate else ""))
         return TV(kind="pybool", dtype="Bool", note="membership")
 
     def compare(self, a, op, b, node, env):
